@@ -22,6 +22,8 @@ func registry() []PropSpec {
 			Quick: []HarnessSpec{
 				{Pkg: pkgTracer, Func: "H15a_q", Unwind: 8, Note: "tracingHTTP2Conn.Read/Write/Close against a fake conn returning n in 0..4 and nil / error / timeout error, client and server side"},
 				{Pkg: pkgTracer, Func: "H15b_q", Unwind: 30, CaseGen: c15Cases(3), CaseNote: "case split: declared payload length of each of 2 frames (0..3) and every partition of the stream into 3 chunks; flags, stream ids and payload bytes symbolic", Note: "http2FrameTracer.trace (response direction): 2 frames of an unknown type, state checked after every chunk"},
+				{Pkg: pkgTracer, Func: "H15r_q", Unwind: 12, Note: "http2RetryCollector: every well-formed history of <=5 operations (stream starts, is refused, completes for good, retry timer fires, connection dies) on two test names; the 3 s retry timer is a stub whose firing is an operation"},
+				{Pkg: pkgTracer, Func: "H15g_q", Unwind: 12, UnwindFor: map[string]int{"vModelCanonicalKey": 24, "vModelToLower": 24, "cancel$1": 40, "cancel": 40}, Note: "tracingHTTP2Conn.handleFrame (server side): every well-formed sequence of <=4 decoded frames on two streams - client HEADERS (open / trailers), server HEADERS (response / trailers), RST_STREAM from either side, GOAWAY with last stream id 0/1/3/5 - with END_STREAM symbolic"},
 			},
 			Stubs: []string{"emitFrame (http2.Framer + HPACK) replaced by a frame counter in the engine; natively the real Framer parses the frames (unknown type, ignored by the connection tracer)", "http2.ReadFrameHeader = 9-byte big-endian model", "bytes.Buffer modelled on its fields"},
 			Out:   []string{"HPACK, http2.Framer, attribution of frames to streams (handleFrame), GOAWAY / retry collector timers, request direction with the client preface"},
